@@ -54,7 +54,7 @@ Lemma do_swapfee_inv s sender receiver denom amt s' :
   exists tb target ratio tm b m s1 s2 s3,
     let recipient := if receiver =? -2 then sender else receiver in
     token_by_minunit s denom = Some tb /\ get (t_minunit tb) (registry s) = Some (target, ratio)
-    /\ get_token s target = Some tm
+    /\ token_by_minunit s target = Some tm
     /\ lossless_swap amt ratio (t_scale tb) (t_scale tm) = (b, m)
     /\ bank_send s sender MODULE (t_minunit tb) b = ROk s1 /\ bank_burn s1 (t_minunit tb) b = ROk s2
     /\ bank_mint s2 target m = ROk s3 /\ bank_pay s3 recipient target m = ROk s'.
@@ -62,7 +62,7 @@ Proof.
   unfold do_swapfee. intros H. inv_if H.
   destruct (token_by_minunit s denom) as [tb|] eqn:Etb; [|discriminate].
   destruct (get (t_minunit tb) (registry s)) as [[target ratio]|] eqn:Er; [|discriminate].
-  destruct (get_token s target) as [tm|] eqn:Etm; [|discriminate].
+  destruct (token_by_minunit s target) as [tm|] eqn:Etm; [|discriminate].
   destruct (lossless_swap amt ratio (t_scale tb) (t_scale tm)) as [b mt] eqn:El.
   inv_if H. inv_bind H. inv_bind H. inv_bind H.
   exists tb, target, ratio, tm, b, mt, x, x0, x1. repeat split; assumption.
@@ -239,7 +239,7 @@ Lemma swapfee_effect s sender receiver denom amt s' : IdInv s ->
   exec s (SwapFee sender receiver denom amt) = ROk s' ->
   exists tb target ratio tm b m,
     let recipient := if receiver =? -2 then sender else receiver in
-    token_by_minunit s denom = Some tb /\ get denom (registry s) = Some (target, ratio) /\ get_token s target = Some tm
+    token_by_minunit s denom = Some tb /\ get denom (registry s) = Some (target, ratio) /\ token_by_minunit s target = Some tm
     /\ lossless_swap amt ratio (t_scale tb) (t_scale tm) = (b, m) /\ 0 <= b /\ 0 <= m /\ 0 < amt
     /\ (forall d, supply_of s' d = supply_of s d - ind (eqb d denom) b + ind (eqb d target) m)
     /\ (forall a d, balance s' a d = balance s a d - ind (eqb (a, d) (sender, denom)) b + ind (eqb (a, d) (recipient, target)) m).
@@ -269,8 +269,11 @@ Lemma swapfee_value s sender receiver denom amt s' : IdInv s ->
   exec s (SwapFee sender receiver denom amt) = ROk s' ->
   (forall sym t, get sym (tokens s) = Some t -> 0 <= t_scale t <= 18) ->
   (forall d tr, get d (registry s) = Some tr -> 0 < snd tr) ->
-  exists target ratio si so b m,
+  exists target ratio tb tm b m,
+    let si := t_scale tb in let so := t_scale tm in
     get denom (registry s) = Some (target, ratio)
+    /\ token_by_minunit s denom = Some tb /\ token_by_minunit s target = Some tm
+    /\ t_minunit tb = denom /\ t_minunit tm = target
     /\ supply_of s' denom = supply_of s denom - b + ind (eqb denom target) m
     /\ supply_of s' target = supply_of s target - ind (eqb target denom) b + m
     /\ 0 <= b <= amt /\ 0 <= m /\ mint_le_worth b m ratio si so
@@ -278,19 +281,18 @@ Lemma swapfee_value s sender receiver denom amt s' : IdInv s ->
 Proof.
   intros I E Hsc Hreg.
   destruct (swapfee_effect _ _ _ _ _ _ I E) as (tb & target & ratio & tm & b & m & Htb & Hr & Htm & Hl & Hb0 & Hm0 & Hamt & Hsup & _).
-  exists target, ratio, (t_scale tb), (t_scale tm), b, m.
-  assert (Hsb : 0 <= t_scale tb <= 18).
-  { destruct (token_by_minunit_spec s denom tb I Htb) as (sy & _ & Hg & _). eapply Hsc; eassumption. }
-  assert (Hsm : 0 <= t_scale tm <= 18).
-  { unfold get_token, token_by_symbol in Htm. destruct (get target (tokens s)) eqn:Eg.
-    - inversion Htm; subst. eapply Hsc; eassumption.
-    - destruct (token_by_minunit_spec s target tm I Htm) as (sy & _ & Hg & _). eapply Hsc; eassumption. }
+  exists target, ratio, tb, tm, b, m. cbv zeta.
+  destruct (token_by_minunit_spec s denom tb I Htb) as (syb & _ & Hgb & _ & Hmub).
+  destruct (token_by_minunit_spec s target tm I Htm) as (sym & _ & Hgm & _ & Hmum).
+  assert (Hsb : 0 <= t_scale tb <= 18) by (eapply Hsc; eassumption).
+  assert (Hsm : 0 <= t_scale tm <= 18) by (eapply Hsc; eassumption).
   assert (Hrp : 0 < ratio) by (apply (Hreg _ _ Hr)).
   assert (Hok : scales_ok (t_scale tb) (t_scale tm)) by (split; assumption).
   pose proof (lossless_range amt ratio _ _ ltac:(lia) Hrp Hok) as H1.
   pose proof (lossless_worth amt ratio _ _ ltac:(lia) Hrp Hok) as H2.
   rewrite Hl in H1, H2.
-  split; [assumption|]. split; [rewrite Hsup, eqb_refl; unfold ind at 1; reflexivity|].
+  split; [assumption|]. split; [assumption|]. split; [assumption|]. split; [assumption|]. split; [assumption|].
+  split; [rewrite Hsup, eqb_refl; unfold ind at 1; reflexivity|].
   split; [rewrite Hsup, eqb_refl; unfold ind at 2; reflexivity|].
   split; [apply H1|]. split; [apply H1|]. split; [assumption|].
   intros ->. pose proof (lossless_exact amt _ _ ltac:(lia) Hok) as H3. rewrite Hl in H3. exact H3.
@@ -416,4 +418,24 @@ Proof.
   assert (Ht' : token_by_minunit (step s m) d = Some t) by (rewrite (token_by_minunit_same _ _ _ Htk Hmu); assumption).
   destruct (IH (step s m) d t (step_RegInv s m R) Hms Ht' Hc0) as [H1 H2].
   split; [assumption|]. rewrite H2. assumption.
+Qed.
+
+(** ** symbols and min units are separate name spaces: after a history in which a token is issued
+    whose SYMBOL is another token's MIN UNIT, the symbol-first lookup [get_token] (keeper GetToken)
+    of that coin denom answers a different token, with a different scale, than the min-unit lookup.
+    The fee-token swap resolved its target with [get_token] before the [fix:]. *)
+Lemma symbol_first_lookup_differs :
+  exists p ms d ta tb,
+    let s := run (genesis p [((0, STAKE), 1000000); ((1, STAKE), 1000000)] 2000000 []) ms in
+    RegInv s /\ get_token s d = Some ta /\ token_by_minunit s d = Some tb
+    /\ t_scale ta <> t_scale tb /\ t_contract ta <> 0 /\ t_contract tb <> 0 /\ t_contract ta <> t_contract tb.
+Proof.
+  exists (mkParams 0 0 1 STAKE true true).
+  exists [Issue 0 (0, 3) (7, 4) 1 6 100 0 true; Issue 1 (7, 4) (8, 4) 1 18 100 0 true;
+          Deploy GOV 1 (0, 3) (7, 4) 6; Deploy GOV 1 (7, 4) (8, 4) 18].
+  exists (7, 4).
+  eexists. eexists. cbv zeta.
+  split; [apply run_RegInv, genesis_RegInv|].
+  split; [vm_compute; reflexivity|]. split; [vm_compute; reflexivity|].
+  simpl. repeat split; discriminate.
 Qed.
